@@ -6,4 +6,5 @@ cd "$(dirname "$0")"
 source ./build.sh
 build_tools
 build_harness
+build_sched
 echo "setup ok: $BUILD/rdmcheck"
